@@ -15,8 +15,8 @@ theorem kth_use_this_tree (k : Nat) :
     the same test; rotation derives the next key from the old key and the salt
     and re-keys the AEAD through InitializeKey (which also restarts the nonce) -/
 theorem nonce_then_rotation_in_both_directions :
-    skel_cipherState_Encrypt.take 6 = ["defer", "call:(func() literal)", "incdec:c.nonce", "if", "cond:c.nonce == keyRotationInterval", "call:c.rotateKey"] ∧
-    skel_cipherState_Decrypt.take 6 = ["defer", "call:(func() literal)", "incdec:c.nonce", "if", "cond:c.nonce == keyRotationInterval", "call:c.rotateKey"] ∧
+    skel_cipherState_Encrypt.take 5 = ["defer", "incdec:c.nonce", "if", "cond:c.nonce == keyRotationInterval", "call:c.rotateKey"] ∧
+    skel_cipherState_Decrypt.take 5 = ["defer", "incdec:c.nonce", "if", "cond:c.nonce == keyRotationInterval", "call:c.rotateKey"] ∧
     skel_cipherState_rotateKey = ["call:hkdf.New", "arg:sha256.New", "arg:oldKey[:]", "arg:c.salt[:]", "arg:info", "call:h.Read", "call:h.Read", "call:c.InitializeKey"] ∧
     skel_cipherState_InitializeKey.contains "call:chacha20poly1305.New" = true ∧
     skel_cipherState_InitializeKey.contains "assign:c.nonce" = true := by decide
